@@ -27,7 +27,6 @@ F_CHARSET = 'C09-add-charset-adopts'
 F_MEDIAVARS = 'C09-media-accepts-variables'
 F_PAGE = 'C09-page-accepts-nonmargin'
 F_TEXT = 'C09-text-replace-keeps-parent'
-F_CLEAN = 'C09-clean-refused-halfway'   # fixed in the code by 3ec898a: the region predicate stays, it must not fire any more
 F_DEPTH2 = 'C09-parentstylesheet-depth2'
 F_INORDER = 'C09-inorder-index-not-ignored'
 
@@ -160,12 +159,6 @@ class Oracle:
         if clause == 'dpss':
             return F_DEPTH2 if k[2] >= 2 else None
         if clause == 'link':
-            # region: insertRule / add / namespaces[p]=u of a @namespace rule raises NoModificationAllowedErr (the
-            # clean-up's deleteRule refused to drop a namespace in use); the flagged object is the new rule
-            is_ns = (t in ('ins', 'add', 'insord') and op[1].kind == 'namespace') or t == 'nsset'
-            if (k[2] == 'parentStyleSheet' and is_ns and out == 'ERR NoModificationAllowedErr'
-                    and k[1] not in pre['live']):
-                return F_CLEAN
             return None
         if clause == 'gone':
             if (k[2] == 'parentStyleSheet' and t in ('add', 'insord') and op[1].kind == 'charset' and not op[-1]
